@@ -152,7 +152,7 @@ def compare(case, m, els, start, dt, steps, grid):
                 return "%s(%r) = %r, explicit Euler gives %r" % (name, t, g, w)
     return None
 
-case = {'start': 1.0, 'dt': 0.05, 'steps': 4, 'elements': [('constant', 'c1', -2.0), ('constant', 'c2', 1.0), ('converter', 'v0', 'T'), ('converter', 'v1', '(c1 - DT)'), ('biflow', 'f0', '((v0 + DT) + DT)'), ('stock', 's0', (0.0, [], ['f0'], '(F_delay(v0, 1.0, (-1.0)) * DT)')), ('stock', 's1', (0.0, ['f0'], [], 'F_pulse(c1, 1.0, 0.0)'))], 'dt2': 0.025}
+case = {'start': 0.0, 'dt': 0.25, 'steps': 3, 'elements': [('constant', 'c1', 0.5), ('constant', 'c2', 1.0), ('converter', 'v0', 'DT'), ('flow', 'f0', '2.0'), ('stock', 's0', (-3.0, ['f0'], [], 'F_min(F_smooth(v0, 2.0, 0.0), F_smooth(v0, 2.0, 3.0))')), ('stock', 's1', (-3.0, [], [], 'F_pulse(4.0, 1.0, 0.0)'))], 'dt2': None}
 bad = run(case)
 print("model:", case)
 print("FAIL: " + bad if bad else "PASS")
